@@ -13,7 +13,8 @@
    kept struct field once; typed arrays as their elements' bit patterns; bool arrays as bits).
 
    Hypotheses: [head_ok] / [records_ok] — record-type names are distinct valid identifiers,
-   their keys distinct valid strings; [vok rc cfg 0 v] — strings are valid UTF-8, media types have
+   their keys distinct valid strings; [vok rc cfg 0 v] — times are the zero value or accepted by
+   compact_time's Validate (/repo bdbfb19; see C05_example_time), strings are valid UTF-8, media types have
    the form type/subtype the validator asks for (/repo afaa1e5; see C05_example_media), sizes and
    nesting within the limits [rc], map keys one-event keyable values that stay distinct,
    emitted field names distinct, values of a registered record type are of that type, no Edge;
@@ -359,4 +360,20 @@ Example C05_example_same_address :
      EEnd; EEndDoc]
   /\ accepts_document default_rcfg (iterate cfg_rec (Some v)) = true
   /\ described_rec (iterate cfg_rec (Some v)) = Some (canon cfg_rec v).
+Proof. vm_compute. repeat split. Qed.
+
+(* a time that compact_time's Validate accepts (token "2020-01-02/03:04:05") is inside the fragment
+   and accepted, also as a map key; one it rejects (the harness tags its token with a leading NUL,
+   Model/Rules.v time_token_valid) is outside [vok] / [supported]: the iterator emits it all the
+   same and the validator refuses the event (rules OnTime, /repo bdbfb19) *)
+Example C05_example_time :
+  let tok := [50; 48; 50; 48; 45; 48; 49; 45; 48; 50; 47; 48; 51; 58; 48; 52; 58; 48; 53] in
+  let good := VMap 1 [(VTime false tok, VIface (VTime false tok))] in
+  let bad := VTime false (0 :: tok) in
+  vok default_rcfg cfg_plain 0 good = true /\ descr cfg_plain good = true
+  /\ accepts_document default_rcfg (iterate cfg_plain (Some good)) = true
+  /\ read_doc (iterate cfg_plain (Some good)) = Some (canon cfg_plain good)
+  /\ vok default_rcfg cfg_plain 0 bad = false /\ supported default_rcfg cfg_plain 0 bad = false
+  /\ iterate cfg_plain (Some bad) = [EBeginDoc; EVersion 0; ETime (0 :: tok); EEndDoc]
+  /\ rejected_at default_rcfg (iterate cfg_plain (Some bad)) = Some 2.
 Proof. vm_compute. repeat split. Qed.
